@@ -96,18 +96,20 @@ Qed.
 
 (** typedness of the Methods other than [c] survives a relinking step that leaves their child lists alone *)
 Lemma TM_pframe_except (X : N -> Prop) s1 g1 s2 g2 c :
-  gwf g1 -> TM X s1 g1 -> pframe (p_tree s1) (p_tree s2) -> (forall q, q <> c -> kids g2 q = kids g1 q) ->
+  gwf g1 -> TM X s1 g1 -> pframe (p_tree s1) (p_tree s2) -> (forall q, q <> c -> kids g2 q = kids g1 q) -> nnp s1 c ->
   TM (fun m => X m \/ m = c) s2 g2.
 Proof.
-  intros Hwf H Hpf Hk m mo Hm Hop Hx.
+  intros Hwf H Hpf Hk Hnc m mo Hm Hop Hx.
   destruct (pframe_inv _ _ _ _ Hpf Hm) as (mo1 & Hm1 & E1 & _).
   assert (Hmc : m <> c) by (intros E; apply Hx; right; exact E).
   assert (Ht1 : mtyped s1 g1 m) by (apply (H m mo1 Hm1); [congruence|intros F; apply Hx; left; exact F]).
-  destruct Ht1 as (a0 & a1 & rest & a0o & a1o & v & Hk1 & Ha0 & Hn0 & Ha1 & Hv & Hn1).
+  destruct Ht1 as (a0 & a1 & rest & a0o & a1o & v & Hk1 & Ha0 & Hn0 & Ha1 & Hv & Hn1 & Hmx).
   destruct (proj2 Hpf _ _ Ha0) as (a0o' & Ha0' & E0). destruct (proj2 Hpf _ _ Ha1) as (a1o' & Ha1' & E1').
   destruct (pay_eq_pnv _ _ E0) as (E0p & _). destruct (pay_eq_pnv _ _ E1') as (E1p & V1).
+  assert (Ha0c : a0 <> c) by (intros ->; destruct Hmx as (_ & M2 & _); exact (Hnc a0o Ha0 M2)).
   exists a0, a1, rest, a0o', a1o', v. rewrite (Hk m Hmc). split; [exact Hk1|]. split; [exact Ha0'|].
-  split; [eapply nodefer_pnv; eauto|]. split; [exact Ha1'|]. split; [congruence|eapply nodefer_pnv; eauto].
+  split; [eapply nodefer_pnv; eauto|]. split; [exact Ha1'|]. split; [congruence|]. split; [eapply nodefer_pnv; eauto|].
+  apply (mx_pnv g1 g2 a0 a0o a0o' a1o a1o' E0p E1p (Hk a0 Ha0c) Hmx).
 Qed.
 
 Lemma step_Dargs fuel : D_arg tbls fuel -> D_args tbls fuel -> D_args tbls (S fuel).
@@ -126,6 +128,8 @@ Proof.
   destruct (argCount af <=? argIndex) eqn:Ele.
   { apply wp_ret. apply Hdone. apply N.leb_le. exact Ele. }
   clear Hdone. apply N.leb_gt in Ele. assert (Hi8 : argIndex < 8) by lia.
+  assert (Hnnp : nnp s curObj).
+  { intros co Hco E. rewrite (Htie co Hco) in E. subst ii. vm_compute in Hrow. injection Hrow as _ _ Eaf. subst af. vm_compute in Ele. destruct argIndex; discriminate. }
   set (argTy := argType af argIndex) in *.
   assert (Hhf : argTy = aml_pArgTypeFieldList -> hasfl s curObj).
   { intros E. destruct (FI_live_get _ _ _ H Hl) as (co & Hco & _). exists co, op, fl, af. split; [exact Hco|].
@@ -134,10 +138,12 @@ Proof.
   { pose proof (ucost_cntu af argIndex Hi8). fold argTy in H1. unfold roomD in *. lia. }
   { intros E. split; [apply Hflp; exists argIndex; split; auto|]. split; [apply HLI; auto|apply Hhf; exact E]. }
   { apply mbA_TM; auto. }
+  { exact Hnnp. }
   { auto. }
   intros [a res] s1 (g1 & H1 & X1 & F1 & Hkc1 & Hfi1 & Hfr & HP1 & Hok1 & Hsh1 & Hbd1 & Hns1 & Hpl1 & Hnfl1) I1.
   pose proof (xd_g _ _ _ _ X1) as G1.
   assert (Hlc1 : glive g1 curObj) by (apply (ge_live _ _ G1); exact Hl).
+  assert (Hnnp1 : nnp s1 curObj) by (apply (nnp_keep NoP s g s1 curObj (fr_keep _ _ _ _ _ _ _ F1) HR Hl Hnnp)).
   (* the state after the optional append *)
   assert (Happ : forall (Q : unit -> pstate -> Prop),
     (forall s2 g2, FD s2 g2 -> IV s2 -> gext g g2 -> pframe (p_tree s1) (p_tree s2) ->
@@ -195,7 +201,8 @@ Proof.
     destruct (fr_keep _ _ _ _ _ _ _ F2 curObj co Hl Hco) as (mo' & Hm' & (E & _) & _). congruence. }
   assert (Hnotin : ~ In curObj (kids g curObj)) by (intros F; eapply (R_child_neq_parent _ _ HR); eauto).
   assert (Htyped_keep : mtyped s g curObj -> mtyped s2 g2 curObj).
-  { intros Ht. eapply (mtyped_frame NoP (eq curObj) _ s g s2 g2 curObj Hwf F2 Hl); [| |intros i o []|exact Ht].
+  { intros Ht. eapply (mtyped_frame NoP (eq curObj) _ s g s2 g2 curObj Hwf F2 Hl);
+      [| |intros i o []|intros i <-; exact Hnnp|intros y (_ & Hin) F; rewrite F in Hin; exact Hin|exact Ht].
     - intros (_ & F). contradiction.
     - right. intros (_ & F). contradiction. }
   destruct (pres_eqb res ROk) eqn:Eres.
@@ -206,7 +213,7 @@ Proof.
       assert (Eu : ucost argTy = 0) by (rewrite Efl; reflexivity).
       split; [lia|]. split; [|congruence].
       assert (HTM2 : TM (fun m => (m = curObj /\ nolook argTy = true) \/ m = curObj) s2 g2).
-      { apply (TM_pframe_except _ s1 g1 s2 g2 curObj (R_gwf _ _ (fi_R _ _ H1)) K3 Hpf2 Hk2'). }
+      { apply (TM_pframe_except _ s1 g1 s2 g2 curObj (R_gwf _ _ (fi_R _ _ H1)) K3 Hpf2 Hk2' Hnnp1). }
       intros m mo Hm Hop _. destruct (N.eq_dec m curObj) as [->|Hne]; [|apply (HTM2 m mo Hm Hop); intros [(F & _)|F]; contradiction].
       destruct (Hback mo Hm) as (co & Hco & Eop). rewrite Hop in Eop.
       destruct (Hmb co Hco Eop) as [Ht|(Eaf & Hb)]; [apply Htyped_keep; exact Ht|]. exfalso.
@@ -219,7 +226,7 @@ Proof.
   destruct (Hok1 (or_introl eq_refl)) as (K1 & K2 & K3).
   assert (Ew : w8 (argIndex + 1) = argIndex + 1) by (unfold w8, two8; apply N.mod_small; lia). rewrite Ew.
   assert (HTM2 : TM (eq curObj) s2 g2).
-  { eapply TM_weaken; [|apply (TM_pframe_except _ s1 g1 s2 g2 curObj (R_gwf _ _ (fi_R _ _ H1)) K3 Hpf2 Hk2')].
+  { eapply TM_weaken; [|apply (TM_pframe_except _ s1 g1 s2 g2 curObj (R_gwf _ _ (fi_R _ _ H1)) K3 Hpf2 Hk2' Hnnp1)].
     intros m mo _ _ [(E & _)|E]; symmetry; exact E. }
   assert (Hkc2 : kids g2 curObj = kids g curObj ++ (match a with Some x => [x] | None => [] end)).
   { rewrite Hk2. f_equal. destruct (N.eq_dec argTy aml_pArgTypeFieldList) as [E|E].
@@ -230,22 +237,31 @@ Proof.
   { intros co2 Hco2 Hop2. destruct (Hback co2 Hco2) as (co & Hco & Eop). rewrite Hop2 in Eop.
     destruct (Hmb co Hco Eop) as [Ht|(Eaf & Hb)]; [left; apply Htyped_keep; exact Ht|].
     destruct method_row as (_ & _ & _ & E0 & E1 & E2 & _).
-    destruct Hb as [(Hi1 & Hk0)|(Hi2 & a0 & a0o & Hk0 & Ha0 & Hn0)].
+    destruct Hb as [(Hi1 & Hk0)|(Hi2 & a0 & a0o & Hk0 & Ha0 & Hn0 & Hop0 & Hii0 & Hkn0)].
     - assert (Hc : argIndex = 0 \/ argIndex = 1) by lia. destruct Hc as [Ec|Ec].
       + assert (Ety : argTy = aml_pArgTypePkgLen) by (unfold argTy; rewrite Eaf, Ec; exact E0).
         rewrite (Hpl1 eq_refl Ety) in Hkc2. rewrite Hk0 in Hkc2. cbn [app] in Hkc2.
         right. split; [exact Eaf|]. left. split; [lia|exact Hkc2].
       + assert (Ety : argTy = aml_pArgTypeNameString) by (unfold argTy; rewrite Eaf, Ec; exact E1).
-        destruct (Hns1 eq_refl Ety) as (obj & po & Ea & Hpo & Hnd). rewrite Ea, Hk0 in Hkc2. cbn [app] in Hkc2.
+        destruct (Hns1 eq_refl Ety) as (obj & po & Ea & Hpo & Hnd & Hpop & Hpii & Hpk). rewrite Ea, Hk0 in Hkc2. cbn [app] in Hkc2.
         destruct (proj2 Hpf2 _ _ Hpo) as (po2 & Hpo2 & E2'). destruct (pay_eq_pnv _ _ E2') as (E2p & _).
-        right. split; [exact Eaf|]. right. split; [lia|]. exists obj, po2. split; [exact Hkc2|]. split; [exact Hpo2|eapply nodefer_pnv; eauto].
+        assert (Hoc : obj <> curObj).
+        { intros E. pose proof Hfr as Hfr'. rewrite Ea in Hfr'. cbn [fresh_root] in Hfr'. apply (proj1 Hfr'). rewrite E. exact Hl. }
+        right. split; [exact Eaf|]. right. split; [lia|]. exists obj, po2. split; [exact Hkc2|]. split; [exact Hpo2|].
+        split; [eapply nodefer_pnv; eauto|]. destruct E2p as (P1 & P2 & _). split; [congruence|]. split; [congruence|].
+        rewrite (Hk2' obj Hoc). exact Hpk.
     - assert (Ety : argTy = aml_pArgTypeByteData) by (unfold argTy; rewrite Eaf, Hi2; exact E2).
-      destruct (Hbd1 eq_refl Ety) as (obj & po & v & Ea & Hpo & Hv & Hnd). rewrite Ea, Hk0 in Hkc2. cbn [app] in Hkc2.
+      destruct (Hbd1 eq_refl Ety) as (obj & po & v & Ea & Hpo & Hv & Hnd & Hpop & Hpii). rewrite Ea, Hk0 in Hkc2. cbn [app] in Hkc2.
       destruct (proj2 Hpf2 _ _ Hpo) as (po2 & Hpo2 & E2'). destruct (pay_eq_pnv _ _ E2') as (E2p & V2).
       assert (Hla0 : glive g a0) by (apply (Hwf curObj a0); rewrite Hk0; left; reflexivity).
       destruct (fr_keep _ _ _ _ _ _ _ F2 a0 a0o Hla0 Ha0) as (a0o2 & Ha0o2 & E0p & _).
       left. exists a0, obj, [], a0o2, po2, v. split; [exact Hkc2|]. split; [exact Ha0o2|]. split; [eapply nodefer_pnv; eauto|].
-      split; [exact Hpo2|]. split; [congruence|eapply nodefer_pnv; eauto]. }
+      split; [exact Hpo2|]. split; [congruence|]. split; [eapply nodefer_pnv; eauto|].
+      assert (Ha0c : a0 <> curObj) by (intros E; apply (R_child_neq_parent _ _ HR curObj a0); [rewrite Hk0; left; reflexivity|exact E]).
+      destruct E0p as (Q1 & Q2 & _). destruct E2p as (P1 & P2 & _).
+      unfold mx. split; [congruence|]. split; [congruence|]. split; [|split; congruence].
+      destruct (fr_kids _ _ _ _ _ _ _ F2 a0 Hla0) as (_ & Hex); [intros (_ & Hin); rewrite Hkn0 in Hin; exact Hin|].
+      rewrite Hex; [exact Hkn0|]. intros E. apply Ha0c. symmetry. exact E. }
   assert (Htie2 : forall co, tget (p_tree s2) curObj = Some co -> o_infoIndex co = ii).
   { intros co2 Hco2. destruct (FI_live_get _ _ _ H Hl) as (co & Hco & _).
     destruct (fr_keep _ _ _ _ _ _ _ F2 curObj co Hl Hco) as (co2' & Hco2' & (_ & Ei & _) & _).
